@@ -18,12 +18,28 @@ def uniq : List α → List α
 
 /-- one pass of the `for value in value.split(delim)` loop, forward/prepend -/
 def prependL (v : α) (old : List α) : List α := v :: old
-def appendL (v : α) (old : List α) : List α := old ++ [v]
+/-- append: the element moves to the end (earlier occurrences are dropped first; repair of D8) -/
+def appendL (v : α) (old : List α) : List α := old.filter (· != v) ++ [v]
+/-- the rule of the pinned tree (before the D8 repair): the value is added at the end and `pathUnique`, keeping
+the first occurrence, then drops it again when it was already present -/
+def appendLPinned (v : α) (old : List α) : List α := old ++ [v]
 def removeL (v : α) (old : List α) : List α := old.filter (· != v)
+
+/-- the order in which the loop visits the pieces of the value: a value that is prepended piece by piece is
+visited last piece first, so that its pieces keep their order at the front of the list (repair of D121) -/
+def loopVals (append fwd : Bool) (vals : List α) : List α := if fwd && !append then vals.reverse else vals
+
+@[simp] theorem loopVals_single (append fwd : Bool) (v : α) : loopVals append fwd [v] = [v] := by
+  cases append <;> cases fwd <;> rfl
 
 /-- the whole loop followed by `pathUnique` -/
 def applyL (append fwd : Bool) (vals : List α) (old : List α) : List α :=
-  uniq (vals.foldl (fun np v => if fwd then (if append then appendL v np else prependL v np) else removeL v np) old)
+  uniq ((loopVals append fwd vals).foldl
+    (fun np v => if fwd then (if append then appendL v np else prependL v np) else removeL v np) old)
+
+/-- the loop with the pinned append rule (D8) -/
+def applyLPinned (append fwd : Bool) (vals : List α) (old : List α) : List α :=
+  uniq (vals.foldl (fun np v => if fwd then (if append then appendLPinned v np else prependL v np) else removeL v np) old)
 
 end ListLayer
 
@@ -164,6 +180,33 @@ def envPrepend (append fwd : Bool) (var value delim : Str) (env : Env) : Outcome
   let opath := (split delim opath).filter (fun el => el ≠ [])
   -- the variable reference is expanded in both directions; when unwinding, a reference that can
   -- no longer be expanded is used as written
+  let value? : Option Str := match expand env value with
+    | .value v => some v
+    | .skip => none
+    | .error => if fwd then none else some value
+  match value?, expand env value with
+  | none, .error => .runtimeError
+  | none, _ => .ok env
+  | some value, _ =>
+    -- a reference still in the value (it came in with the value of a variable) is expanded here, in the value;
+    -- the elements the list already has are stored as they are (repair of D123)
+    let value := interp env (value.length + 1) value
+    let npath := applyL append fwd (split delim value) opath
+    let s := join delim npath
+    let s := if pre && !startsWith s delim then delim ++ s else s
+    let s := if app && !endsWith s delim then s ++ delim else s
+    .ok (env.set var s)
+
+/-- `execute_envPrepend` of the pinned tree as far as D123 goes: the interpolation of `${K}` ran over the whole new
+list when the variable was stored (`setEnv(..., interpolateEnv=True)`), so elements that were already there were
+rewritten, and not over the value, so a value with a nested reference was added expanded but removed unexpanded -/
+def envPrependPinned (append fwd : Bool) (var value delim : Str) (env : Env) : Outcome :=
+  let opath := (env.get var).getD []
+  let pre := startsWith value delim
+  let value := if pre then value.drop delim.length else value
+  let app := endsWith value delim
+  let value := if app then value.take (value.length - delim.length) else value
+  let opath := (split delim opath).filter (fun el => el ≠ [])
   let value? : Option Str := match expand env value with
     | .value v => some v
     | .skip => none
